@@ -27,7 +27,7 @@ CHECKS = {
 
 CHECKS.update({
  "C17": dict(engine="E2 bfs (differential)", sec="4/C17", technique=E2 + ", differential: the same actions drive the full serial path and a direct bus in lock-step; plus exhaustive fault injection at the bridge",
-   text="The real Sign -> SerialSignBus -> in-process byte pipe -> Odk -> VirtualSignBus path and an identical VirtualSignBus driven directly are explored together, breadth-first to a fixed point: at controller level (configure, configure_if_needed, send_pages of 4 lists, show, load_next, shut_down, reconfigure as another type, an absent address; 11 types x both flip styles) and at message level (R2 alphabet plus 0/1/15-byte chunks plus eight unknown frames that look like known one-byte messages). After every step success/failure, replies and all signs' state/type/pages must agree, no byte may be left on the wire, and every bridge call must have forwarded exactly the decoding of the line it read (the implementation's own codec, taken as given) and written back a frame iff the bus replied. Every reply/malformed line x {reply, silence} x {read error at every call index, write error, bus error} is injected at a bridge on a scripted port, and every line is followed by a valid second line through the same bridge.",
+   text="The real Sign -> SerialSignBus -> in-process byte pipe -> Odk -> VirtualSignBus path and an identical VirtualSignBus driven directly are explored together, breadth-first to a fixed point: at controller level (configure, configure_if_needed, send_pages of 4 lists, show, load_next, shut_down, reconfigure as another type, an absent address; 11 types x both flip styles) and at message level (R2 alphabet plus 0/1/15-byte chunks plus eight unknown frames that look like known one-byte messages); all ordered pairs and triples of the controller operations are also run through ONE wire (one serial bus, one bridge) against the direct bus. After every step success/failure, replies and all signs' state/type/pages must agree, no byte may be left on the wire, and every bridge call must have forwarded exactly the decoding of the line it read (the implementation's own codec, taken as given) and written back a frame iff the bus replied. Every reply/malformed line x {reply, silence} x {read error at every call index, write error, bus error} is injected at a bridge on a scripted port, and every line is followed by a valid second line through the same bridge.",
    note="Single-threaded duplex (the bridge runs inside the controller's port write); pauses skipped through the seam; a refused request is 'no reply' directly and a read failure on the wire."),
 
  "C08": dict(engine="E2 bfs", sec="4/C08", technique=E2 + "; the action alphabet is the union of raw bus messages (which generate every prior state) and whole operations of the real controller",
@@ -35,10 +35,10 @@ CHECKS.update({
    note="Modelling assumption on earlier traffic's configuration blocks stated in the evidence; page contents are 4 patterns; thorough adds 6 addresses, richer chunks and a bystander sign."),
 
  "C09": dict(engine="E3 tree + responding bus", sec="4/C09", technique="exhaustive enumeration of (sign type, address, page list, retry schedule, unacknowledged attempt) against the real controller, judged by a trace predicate",
-   text="Every combination of the 11 sign types x 4 addresses x retry schedules {S,FS,FFS,FFF} x {configure, send_pages over a table of page lists: 0..16 pages, every page size 16k bytes for k=1..24 (64 thorough) and 255,256,257,4095,4096 (the 16-bit offset limit), mixed sizes, a list of exactly 65535 chunks} x {every attempt acknowledged, or the n-th receive request answered by silence / another operation's ack / a foreign ack / a report, or the j-th data chunk answered by a stray report} is run on the real Sign against a recording bus; the recorded conversation is judged by a trace predicate over the transfers that are made (an unacknowledged request is never followed by data or a count before the next request; per acknowledged attempt: per-item offsets 0,16,32.., chunks <= 16 bytes, concatenation == item, count == chunks since the request, query after count). How often the controller asks again or retries is left to C10/C11.",
+   text="Every combination of the 11 sign types x 4 addresses x retry schedules {S,FS,FFS,FFF} x {configure, send_pages over a table of page lists: 0..16 pages, every page size 16k bytes for k=1..24 (64 thorough) and 255,256,257,4095,4096 (the 16-bit offset limit), mixed sizes, a list of exactly 65535 chunks} x {every attempt acknowledged, or the n-th receive request answered by silence / another operation's ack / a foreign ack / a report / silence followed by an in-progress report to a query, or the j-th data chunk answered by a stray report} is run on the real Sign against a recording bus; the recorded conversation is judged by a trace predicate over the transfers that are made (an unacknowledged request is never followed by data or a count before the next request; per acknowledged attempt: per-item offsets 0,16,32.., chunks <= 16 bytes, concatenation == item, count == chunks since the request, query after count). How often the controller asks again or retries is left to C10/C11.",
    note="Transfers above 65535 chunks or pages above 64 KiB are outside the property (16-bit fields); contents are position-identifying fills."),
  "C10": dict(engine="E3 tree", sec="4/C10", technique="stateless exhaustive reply-tree enumeration (every reply of a 47-symbol alphabet at every step, by prefix re-execution of the real operation) compared with a reference controller automaton",
-   text="The complete reply tree of configure, configure_if_needed, send_pages([],[p],[p,q]), show_loaded_page, load_next_page and shut_down is enumerated on the real Sign: at every step every one of 47 replies (13 states x own/foreign, 6 acks x own/foreign, none, goodbye, unknown frame, 6 kinds of bus failure) is offered until the operation returns (3.5 M leaves quick; polling loops cut at a stated horizon, cut prefixes still checked). Every leaf's exact message list and outcome class is compared with a reference automaton of the documented protocol, and a bus error must be the injected one. One documented don't-care: an unexpected answer to send_pages' closing query may yield 'manual' or a protocol error.",
+   text="The complete reply tree of configure, configure_if_needed, send_pages([],[p],[p,q]), show_loaded_page, load_next_page and shut_down (send_pages also with a list of 64+ chunks), and of the same operations performed as the SECOND call on one Sign object after each of five prelude calls (so that state carried from call to call shows), is enumerated on the real Sign: at every step every one of 47 replies (13 states x own/foreign, 6 acks x own/foreign, none, goodbye, unknown frame, 6 kinds of bus failure) is offered until the operation returns (3.5 M leaves quick; polling loops cut at a stated horizon, cut prefixes still checked). Every leaf's exact message list and outcome class is compared with a reference automaton of the documented protocol, and a bus error must be the injected one. One documented don't-care: an unexpected answer to send_pages' closing query may yield 'manual' or a protocol error.",
    note="Trusts the ~120-line reference automaton; one foreign address and one unknown frame per run; polling horizon 9/12."),
  "C11": dict(engine="E3 tree", sec="4/C11", technique="the same exhaustive reply-tree enumeration as C10, judged by conversation invariants I1-I5 instead of a reference conversation",
    text="On every leaf of the same complete reply trees: I1 success only if the report concluding the final transfer is the own-address 'received' state; I2 nothing is sent after a bus error, a reply to a no-reply message, or a non-matching answer to a request, and the result is the bus error / a protocol error; I3 at most 3 transfer attempts, each retry directly preceded by the own-address 'failed' report; I4 every addressed message carries the own address; I5 (metamorphic) a foreign-address reply is handled like an unrelated frame (replacing them changes neither the message list nor the outcome class) or rejected on the spot with a protocol error.",
@@ -48,10 +48,10 @@ CHECKS.update({
    text="For every size of an exhaustive box (incl. 0 and heights not a multiple of 8), the real sign sizes and 33x33, and 5 kinds of start page (new; borrowed bytes with non-standard header/padding and 00/FF/fill data; owned bytes): every in-bounds set/clear, set_all true/false and every listed out-of-bounds coordinate (incl. y inside the column's last byte) is executed on the real Page and judged on exactly the observables the statement lists. All sequences of operations are covered by a breadth-first closure to the fixed point (all 2^n pixel states) on tiny pages in lock-step with a boolean grid.",
    note="Header bytes 1..3 and unused high bits are recorded, not judged; closure only on pages up to 18 pixels."),
  "C07": dict(engine="E1 enum", sec="4/C07", technique=E1,
-   text="For every (id,width,height) of the boxes and the real/large sizes: Page::new bytes against the layout formula; every pixel set (twice) / read / cleared (twice) on a blank page must change exactly bit y%8 of byte 4+x*ceil(h/8)+y/8 (so the pixel-to-bit map is checked injective pixel by pixel); from_bytes for every candidate length around the padded size (owned and borrowed) and over the page's own bytes; the pixel map is also checked on pages over borrowed bytes.",
+   text="For every (id,width,height) of the boxes and the real/large sizes: Page::new bytes against the layout formula; every pixel set (twice) / read / cleared (twice) on a blank page, and cleared / set again on a page with every pixel on, must change exactly bit y%8 of byte 4+x*ceil(h/8)+y/8 (so the pixel-to-bit map is checked injective pixel by pixel, against both backgrounds); sizes include heights just above 2^24 and 2^25; from_bytes for every candidate length around the padded size (owned and borrowed) and over the page's own bytes; the pixel map is also checked on pages over borrowed bytes.",
    note="Trusts the statement's formula as coded in refmodel.rs; large sizes visit boundary pixels only in the quick tier."),
  "C15": dict(engine="E3 tree + E4 devices", sec="4/C15", technique="exhaustive enumeration of environment answer scripts (fragment sizes, interrupts, zero/short transfers, hard errors at every call index) against the real Frame::read/write",
-   text="The real Frame::read and Frame::write run against a scripted stream whose every call is answered from a finite script: every composition of short streams into delivery sizes, every subset of interrupted calls among the first m calls, a hard error of 4 kinds and a premature Ok(0) at every call index, <=2 interrupts combined with a terminal fault anywhere on longer streams; likewise for the sink. After every read the stream position must be exactly the end of the first line and the result must equal the decoding of that line (the implementation's own Frame::from_bytes on exactly the consumed bytes: the codec is taken as given, C01-C03 decide it; a stream that ends before any line feed may also give an I/O error); writes must deliver exactly the frame's encoding (to_bytes_with_newline) or fail with an I/O error and stop.",
+   text="The real Frame::read and Frame::write run against a scripted stream whose every call is answered from a finite script: every composition of short streams (incl. lines with non-UTF-8 bytes) into delivery sizes, every subset of interrupted calls among the first m calls, a hard error of 4 kinds and a premature Ok(0) at every call index, <=2 interrupts combined with a terminal fault anywhere on longer streams; likewise for the sink. After every read the stream position must be exactly the end of the first line and the result must equal the decoding of that line (the implementation's own Frame::from_bytes on exactly the consumed bytes: the codec is taken as given, C01-C03 decide it; a stream that ends before any line feed may also give an I/O error); writes must deliver exactly the frame's encoding (to_bytes_with_newline) or fail with an I/O error and stop; after a zero-byte accept either is acceptable.",
    note="Streams are a fixed list of 14 (1-3 frames, invalid lines, trailing bytes, 255-byte frame); scripts enumerated exhaustively within the stated lengths."),
  "C16": dict(engine="E3 tree + E4 devices", sec="4/C16", technique="exhaustive enumeration of (message, reply line, fault position) against the real SerialSignBus on a scripted port",
    text="Every message of a 326-message list (all kinds, every data length 0..=255, boundary parameters, unknown frames that share the type byte of reply-expecting messages) x every reply line (all 13 reports, 6 acks, other kinds incl. 254/255-byte lines, 8 malformed shapes, empty, timeout) followed by a sentinel line, plus a fault at every write and read call index, plus failure-then-clean sequences on the same bus, is sent through one real SerialSignBus; bytes written (== Frame::from(message).to_bytes_with_newline()), read calls, input position and the returned value (== Frame::from_bytes + Message::from of the line; an undecodable line must give an error) are judged; the codec itself is taken as given (C01-C05 decide it).",
@@ -63,7 +63,7 @@ CHECKS.update({
    text="All 11 types (block fields vs dimensions; a real VirtualSign configured with the block stores exactly a page of the type's size, and whatever it holds after a page of a neighbouring size has the type's dimensions), all 121 ordered pairs of types (failed attempt with A, retry with B), all 65536 (family,id) pairs with the other 14 bytes varied, every length 0..=600 and lengths = 16 mod 256 / mod 65536, and every single-byte variation of every real block are decoded and compared with a literal table.",
    note="Trusts the literal table SIGN_TYPES."),
  "C20": dict(engine="E3 tree + E4 devices", sec="4/C20", technique="exhaustive product of prior port settings x constructors x a fault at each configuration call, on a scripted SerialDevice",
-   text="14 prior baud values x 4 char sizes x 3 parities x 2 stop bits x 3 flow controls x 3 prior timeouts x {SerialSignBus::try_new, Odk::try_new, configure_port with 4 timeouts} x {no fault, or each of 4 configuration calls failing with 5 error kinds (incl. Interrupted and WouldBlock), on every occurrence or only the 1st/2nd/3rd} = 1.52 M constructions, visited in a stride permutation with the budget polled, on a scripted device that records every call; resulting line settings, timeout (the caller's value for configure_port; some non-zero timeout for the constructors) and error propagation are judged: an object is returned only fully configured, a call that fails every time surfaces as that error, after a one-off failure either the error or a fully configured object.",
+   text="14 prior baud values x 4 char sizes x 3 parities x 2 stop bits x 3 flow controls x 3 prior timeouts x {SerialSignBus::try_new, Odk::try_new, configure_port with 7 timeouts incl. sub-millisecond ones} x {no fault, or each of 4 configuration calls failing with 5 error kinds (incl. Interrupted and WouldBlock), on every occurrence or only the 1st/2nd/3rd} = 2.29 M constructions, visited in a stride permutation with the budget polled, on a scripted device that records every call; resulting line settings, timeout (the caller's value for configure_port; some non-zero timeout for the constructors) and error propagation are judged: an object is returned only fully configured, a call that fails every time surfaces as that error, after a one-off failure either the error or a fully configured object.",
    note="Trusts serial-core's blanket reconfigure; the settings type is the harness's own so every call can be made to fail."),
 
  "C12": dict(engine="E2 bfs", sec="4/C12", technique=E2 + "; plus directed exhaustive sweeps of configuration fields and 70000-step counter chains",
